@@ -28,6 +28,7 @@ Record feat := mkFeat {
   f_conv : bool;             (* decoded payload: conversation non-empty *)
   f_ext : bool;              (*                  extended text present *)
   f_skdm : bool;             (*                  sender-key distribution present *)
+  f_more : bool;             (*                  a (known) field other than the key distribution is set *)
   f_enq : bool               (* the send layer still holds a sent message with this id *)
 }.
 
@@ -35,10 +36,17 @@ Record feat := mkFeat {
 Record variant := mkVariant {
   v_ctl_participant : bool;   (* control layer passes participant= to its encrypt-notification acks *)
   v_account_return : bool;    (* AccountIbProtocolEntity.fromProtocolTreeNode returns the entity (repaired upstream) *)
-  v_unregister : bool         (* the profiles layer forwards UnregisterIqProtocolEntity *)
+  v_unregister : bool;        (* the profiles layer forwards UnregisterIqProtocolEntity *)
+  v_text_skdm_only : bool;    (* messages layer: no receipt only for a payload that is NOTHING BUT a key distribution
+                                 (unrepaired: no receipt whenever a key distribution is on board) *)
+  v_media_skdm_guard : bool   (* media layer ignores a payload that is nothing but a key distribution
+                                 (unrepaired: dispatches on the mediatype attribute alone) *)
 }.
-Definition repaired : variant := mkVariant true true true.
-Definition unrepaired : variant := mkVariant false false false.
+Definition repaired : variant := mkVariant true true true true true.
+Definition unrepaired : variant := mkVariant false false false false false.
+
+(* the payload is the pkmsg part of a group message: ListFields() == [sender_key_distribution_message] *)
+Definition skdm_only (f : feat) : bool := f_skdm f && negb (f_more f).
 
 Inductive stanza :=
 | SEntity (e : feat)                                   (* entity.toProtocolTreeNode() of the entity sent *)
@@ -93,13 +101,14 @@ Definition receipt (id to participant : ostr) (read : bool) (callid : ostr) : st
 Definition ack (id : ostr) (cls : string) (type to participant : ostr) : stanza :=
   SAck id cls (nz type) to (nz participant).
 
-Definition recv_messages (f : feat) : list action :=
+Definition recv_messages (v : variant) (f : feat) : list action :=
   if f_has_proto f then
     match f_mediatype f with
     | None =>
       if f_conv f then [Up "TextMessageProtocolEntity"]
       else if f_ext f then [Up "ExtendedTextMessageProtocolEntity"]
-      else if negb (f_skdm f) then [Down (receipt (f_id f) (f_from f) (f_participant f) false None)]
+      else if negb (if v_text_skdm_only v then skdm_only f else f_skdm f)
+           then [Down (receipt (f_id f) (f_from f) (f_participant f) false None)]
       else []
     | Some _ => []
     end
@@ -116,10 +125,11 @@ Definition media_class (mt : ostr) : option string :=
   else if oeq mt "url" then Some "ExtendedTextMediaMessageProtocolEntity"
   else None.
 
-Definition recv_media (f : feat) : list action :=
+Definition recv_media (v : variant) (f : feat) : list action :=
   if String.eqb (f_tag f) "message" then
     if oeq (f_type f) "media" then
       if f_has_proto f then
+        if v_media_skdm_guard v && skdm_only f then [] else
         match media_class (f_mediatype f) with
         | Some c => [Up c]
         | None => [Down (receipt (f_id f) (f_from f) (f_participant f) true None)]
@@ -182,8 +192,8 @@ Definition recv_calls (f : feat) : list action :=
 Definition handler_recv (v : variant) (l : lid) (f : feat) : list action :=
   match l with
   | LAuth => recv_auth f
-  | LMessages => recv_messages f
-  | LMedia => recv_media f
+  | LMessages => recv_messages v f
+  | LMedia => recv_media v f
   | LReceipts => [Up "IncomingReceiptProtocolEntity"]
   | LAcks => [Up "IncomingAckProtocolEntity"]
   | LPresence => [Up "PresenceProtocolEntity"]
